@@ -49,9 +49,10 @@ __CPROVER_ensures(gh_allocs == __CPROVER_old(gh_allocs))
 /* ---- unlock<Fn>(fn): the owner either frees the mutex (no request pending at that instant) or hands it to exactly one request - the
  * head of its private arrival-ordered queue - by calling fn once with it.  Never both, never neither, never ownerless with requests. */
 #if defined(CV_HAS_mx_unlock_rel) || defined(CV_HAS_mx_unlock_del)
-#ifdef CV_HAS_mx_build_queue_stub
 AWT *gh_bq_nodes;   /* the queue build_queue produces (abstract): a non-empty list owned by the caller */
-void mx_build_queue(MX *m, AWT *stop) { gh_bq_calls++; gh_bq_stop = stop;
+void *gh_bq_cell;   /* value of the request cell at the instant build_queue is entered (what the detaching exchange is about to take) */
+#ifdef CV_HAS_mx_build_queue_stub
+void mx_build_queue(MX *m, AWT *stop) { gh_bq_calls++; gh_bq_stop = stop; gh_bq_cell = *gh_M_cell;
   __CPROVER_assert(gh_mx_tok == MX_ME, "build_queue called by a thread that does not own the mutex");
   __CPROVER_assert(m->_queue == 0, "build_queue refills the private queue only when it is empty (older batch before newer batch)");
   m->_queue = gh_bq_nodes; }
@@ -59,16 +60,19 @@ void mx_build_queue(MX *m, AWT *stop) { gh_bq_calls++; gh_bq_stop = stop;
 #define UNLOCK_CONTRACT(this_) \
 __CPROVER_requires(M_PRE(this_) && gh_mx_tok == MX_ME && gh_my_node == 0 && gh_node_own == OWN_NONE) \
 __CPROVER_requires(gh_bq_nodes != 0 && gh_qhead == (void *)this_->_queue && gh_qnext == (void *)(this_->_queue != 0 ? this_->_queue->_next : gh_bq_nodes->_next)) \
-__CPROVER_assigns(*gh_M_cell, __CPROVER_object_whole(this_), PROTM_GHOSTS, gh_bq_calls, gh_bq_stop, gh_fn_calls, gh_fn_arg, gh_bq_nodes->_next, gh_fn_next_at_call) \
+__CPROVER_assigns(*gh_M_cell, __CPROVER_object_whole(this_), PROTM_GHOSTS, gh_bq_calls, gh_bq_stop, gh_bq_cell, gh_fn_calls, gh_fn_arg, gh_bq_nodes->_next, gh_fn_next_at_call) \
 __CPROVER_assigns(this_->_queue != 0: this_->_queue->_next) \
 __CPROVER_ensures(cv_exc_pending == 0 && gh_mx_tok != MX_ME)                                /* afterwards this thread no longer owns it */ \
 __CPROVER_ensures((gh_released == 1) != (gh_fn_calls == 1))                                 /* exactly one of: freed / handed over */ \
 __CPROVER_ensures(gh_released <= 1 && gh_fn_calls <= 1) \
+__CPROVER_ensures(gh_released >= 0 && gh_fn_calls >= 0)                                        /* they are counters (history lemma: "freed" means nobody was resumed) */ \
 __CPROVER_ensures(gh_released == 1 ==> (gh_qhead == 0 && gh_seen == gh_DOORMAN && gh_bq_calls == 0))       /* freed only when no request was pending at that instant */ \
 __CPROVER_ensures((gh_fn_calls == 1 && gh_qhead != 0) ==> (gh_fn_arg == gh_qhead && gh_bq_calls == 0))     /* FIFO: the longest-waiting request of the private queue */ \
 __CPROVER_ensures((gh_fn_calls == 1 && gh_qhead == 0) ==> (gh_bq_calls == 1 && gh_bq_stop == gh_DOORMAN && gh_fn_arg == (void *)gh_bq_nodes))  /* queue was empty: rebuilt from the pending requests */ \
 __CPROVER_ensures(gh_fn_calls == 1 ==> (void *)this_->_queue == gh_qnext)                 /* the granted request leaves the queue: the rest keeps its order */ \
 __CPROVER_ensures(gh_fn_calls == 1 ==> gh_fn_next_at_call == 0)                             /* the granted request is unlinked before it is resumed */ \
+__CPROVER_ensures(gh_released == 1 ==> (void *)this_->_queue == 0)                          /* frame: freeing leaves the (empty) private queue empty - needed to compose (history lemma, h_lemma.c) */ \
+__CPROVER_ensures(gh_bq_calls == 1 ==> (gh_bq_cell != 0 && gh_bq_cell != gh_DOORMAN))       /* the queue is rebuilt only after the release attempt failed: a request IS pending at the detach, so the rebuilt queue is non-empty (no hand-over to nobody) */ \
 __CPROVER_ensures(gh_allocs == __CPROVER_old(gh_allocs))
 void *gh_qhead; void *gh_qnext; void *gh_fn_next_at_call;
 #endif
